@@ -160,3 +160,67 @@ package dagcbor
 //@   loop 0 assigns itr.pos
 //@   loop 0 invariant itr != nil && itr.src == n.val && 0 <= itr.pos && itr.pos <= datamodel.vlen(n.val) && length == headlen(datamodel.vlen(n.val)) + msum(n.val, itr.pos)
 //@   loop 1 invariant 0 <= i && i <= nl && nl == datamodel.vlen(n.val) && length == headlen(datamodel.vlen(n.val)) + lsum(n.val, i)
+
+// ---- decoding (C03 strictness, C10 depth and allocation bounds, C06 "success means end of stream") ----
+
+//@ sentinel ErrInvalidMultibase
+//@ sentinel ErrAllocationBudgetExceeded
+//@ sentinel ErrDecodeDepthExceeded
+//@ sentinel ErrTrailingBytes
+//@ pure func maxDepthOf(o DecodeOptions) mathint = o.MaxDepth > 0 ? o.MaxDepth : 1024
+//@ pure func maxPreallocOf(o DecodeOptions) mathint = o.MaxCollectionPrealloc > 0 ? o.MaxCollectionPrealloc : 1024
+
+//@ func (DecodeOptions).refmtDecodeOptions() (opts)
+//@   assigns nothing
+//@   ensures[C03] opts.RejectIndefinite && opts.CoerceUndefToNull
+//@   ensures[C03] !cfg.RelaxedDecode ==> opts.RejectNonMinimalInteger && opts.RejectNaN && opts.RejectInfinity
+
+//@ func (DecodeOptions).maxPrealloc() (r)
+//@   assigns nothing
+//@   ensures[C10] r >= 1 && r == maxPreallocOf(cfg)
+//@ func (DecodeOptions).maxDepth() (r)
+//@   assigns nothing
+//@   ensures[C10] r >= 1 && r == maxDepthOf(cfg)
+
+//@ func unmarshal1(na, tokSrc, budget, depth, options) (err)
+//@   requires na != nil && tokSrc != nil && budget != nil && depth >= 0 && tokSrc.strict && *budget <= 4611686018427387904 && 0 <= *budget
+//@   assigns *budget, tokSrc.rd.pos, foreign
+//@   before unmarshal2 assert[C10] carg4 == depth
+//@   ensures[C10] err == nil ==> *budget >= 0
+//@   ensures[C10] *budget <= old(*budget)
+
+//@ func unmarshal2(na, tokSrc, tk, budget, depth, options) (err)
+//@   requires na != nil && tokSrc != nil && tk != nil && budget != nil && depth >= 0 && tokSrc.strict && *budget <= 4611686018427387904 && 0 <= *budget
+//@   requires root(budget) != root(tk)
+//@   requires (tk.Type == tok.TMapOpen || tk.Type == tok.TArrOpen) ==> tk.Length >= 0
+//@   requires tk.Type == tok.TMapOpen || tk.Type == tok.TMapClose || tk.Type == tok.TArrOpen || tk.Type == tok.TArrClose || tk.Type == tok.TNull || tk.Type == tok.TString || tk.Type == tok.TBytes || tk.Type == tok.TBool || tk.Type == tok.TInt || tk.Type == tok.TUint || tk.Type == tok.TFloat64
+//@   assigns *budget, *tk, tokSrc.rd.pos, foreign
+//@   ensures[C03] err == nil && old(tk.Tagged) ==> old(tk.Type) == tok.TBytes && old(tk.Tag) == 42 && options.AllowLinks && len(old(tk.Bytes)) >= 1 && old(tk.Bytes[0]) == 0
+//@   ensures[C03] err == nil ==> old(tk.Type) != tok.TMapClose && old(tk.Type) != tok.TArrClose
+//@   ensures[C10] err == nil ==> *budget >= 0
+//@   ensures[C10] *budget <= old(*budget)
+//@   before BeginMap assert[C10] depth < maxDepthOf(options) && 0 <= carg1 && carg1 <= maxPreallocOf(options) && carg1 <= old(*budget) - *budget
+//@   before BeginList assert[C10] depth < maxDepthOf(options) && 0 <= carg1 && carg1 <= maxPreallocOf(options) && carg1 <= old(*budget) - *budget
+//@   before unmarshal1 assert[C10] carg3 == depth + 1
+//@   before unmarshal2 assert[C10] carg4 == depth + 1
+//@   before Finish assert[C03] observedLen == expectLen && expectLen == old(tk.Length)
+//@   before AssembleEntry assert[C03] tk.Type == tok.TString && !tk.Tagged && carg1 == tk.Str && (!options.RelaxedDecode ==> !exists && indom(seenKeys, tk.Str))
+//@   before AssembleEntry assert[C10] *budget >= 0 && observedLen <= expectLen
+//@   before AssignString assert[C03,C10] carg1 == tk.Str && *budget >= 0 && old(*budget) - *budget >= len(tk.Str)
+//@   before AssignBytes assert[C03,C10] carg1 == tk.Bytes && !tk.Tagged && *budget >= 0 && old(*budget) - *budget >= len(tk.Bytes)
+//@   before AssignBool assert[C03] carg1 == tk.Bool
+//@   before AssignInt assert[C03] (tk.Type == tok.TInt && carg1 == tk.Int) || (tk.Type == tok.TUint && carg1 == tk.Uint && tk.Uint <= 9223372036854775807)
+//@   before AssignFloat assert[C03] carg1 == tk.Float64
+//@   before NewUint assert[C03] carg0 == tk.Uint && tk.Uint > 9223372036854775807
+//@   before AssignLink assert[C03] tk.Tagged && tk.Tag == 42 && options.AllowLinks && len(tk.Bytes) >= 1 && tk.Bytes[0] == 0
+//@   loop 0 assigns *budget, *tk, tokSrc.rd.pos, foreign
+//@   loop 1 assigns *budget, *tk, tokSrc.rd.pos, foreign
+//@   loop 0 invariant na != nil && ma != nil && tokSrc.strict && 0 <= observedLen && observedLen <= expectLen && expectLen == old(tk.Length) && *budget >= 0 && *budget <= old(*budget) && old(tk.Type) == tok.TMapOpen && !old(tk.Tagged) && (seenKeys == nil || fresh(seenKeys))
+//@   loop 1 invariant na != nil && la != nil && tokSrc.strict && 0 <= observedLen && observedLen <= expectLen && expectLen == old(tk.Length) && *budget >= 0 && *budget <= old(*budget) && old(tk.Type) == tok.TArrOpen && !old(tk.Tagged)
+
+//@ func Unmarshal(na, tokSrc, options) (err)
+//@   requires na != nil && tokSrc != nil && tokSrc.strict && options.AllocationBudget <= 4611686018427387904 && 0 <= options.AllocationBudget
+
+//@ func (DecodeOptions).Decode(na, r) (err)
+//@   requires na != nil && r != nil && r.teesink == nil && cfg.AllocationBudget <= 4611686018427387904 && 0 <= cfg.AllocationBudget
+//@   ensures[C03,C06] err == nil && !cfg.DontParseBeyondEnd && !ok ==> r.pos == io.blen(r.data)
